@@ -167,6 +167,10 @@ func buildFieldMappingConverter[I any]() func(input any) (any, error) {
 	return func(input any) (any, error) {
 		in, ok := input.(map[string]any)
 		if !ok {
+			if _, isI := input.(I); isI {
+				// the zero value of the node's own input type: every data predecessor was skipped
+				return input, nil
+			}
 			panic(newUnexpectedInputTypeErr(reflect.TypeOf(map[string]any{}), reflect.TypeOf(input)))
 		}
 
@@ -178,6 +182,10 @@ func buildStreamFieldMappingConverter[I any]() func(input streamReader) streamRe
 	return func(input streamReader) streamReader {
 		s, ok := unpackStreamReader[map[string]any](input)
 		if !ok {
+			if _, isI := unpackStreamReader[I](input); isI {
+				// the empty stream of the node's own input type: every data predecessor was skipped
+				return input
+			}
 			panic("mappingStreamAssign incoming streamReader chunk type not map[string]any")
 		}
 
